@@ -578,6 +578,8 @@ func (r *runner) oneBuilder(id, req, goReply string, corpus bool) bool {
 			}
 		} else if strings.HasPrefix(goReply, "PANIC") {
 			m.FailingInput = "the builder call sequence makes Program.Assemble panic: " + goReply
+		} else if strings.HasPrefix(goReply, "ERR") && strings.HasPrefix(modelReply, "OK ") {
+			m.FailingInput = "Program.Assemble refuses (" + goReply + ") a label program whose label-level meaning is defined on every input and which the reference resolver assembles (C06.assemble_sound): no instruction list is handed out for it"
 		}
 		return r.mismatch(m)
 	}
